@@ -16,7 +16,7 @@ vocabulary with the model (`Pod`, `Call`, `Items`, `qget`); every rule below is 
 import Karp.Model.Drain
 
 namespace Karp.Spec.Drain
-open Karp.Drain (Pod Dnd sec Items Call qget State Step livePods liveUids)
+open Karp.Drain (Pod Dnd sec Items Call qget State Step livePods liveUids DeadlineSrc)
 
 /-- deadlines ordered with "no deadline" as +∞: `dle a b` ⇔ a is no later than b -/
 def dle (a b : Option Int) : Bool :=
@@ -170,12 +170,35 @@ def addOK (uids : List Nat) (D : Option Int) (I I' : Items) (calls : List Call) 
   && (keys I').all (fun u => qget I' u == qget I u ||
         (uids.contains u && qget I' u == some (dmin ((qget I u).getD none) D)))
 
+/-- "Only when the NodeClaim has a termination grace period": the node deadline is the instant the NodeClaim's
+    termination timestamp denotes.  A node without a (single) NodeClaim, a NodeClaim without the timestamp, and a
+    timestamp that cannot be read give no deadline. -/
+def knownDeadline : DeadlineSrc → Option Int
+  | .annotation (some t) => some t
+  | _ => none
+
+/-- the NodeClaim says it has a deadline, but what it says cannot be read -/
+def unreadable : DeadlineSrc → Bool
+  | .annotation none => true
+  | _ => false
+
+/-- a drain pass of the termination controller.  With a known deadline, or knowingly none, it is an ordinary
+    drain pass under it.  When the deadline cannot be read, no instant is "the node deadline": the pass may refuse
+    (report an error and touch nothing) or drain as for a node without a deadline (evictions only) — it must not
+    act under a deadline of its own making. -/
+def nodePassOK (pods : List Pod) (src : DeadlineSrc) (now : Int) (I I' : Items) (calls : List Call) (r : String) : Bool :=
+  if unreadable src then
+    if r == "error" then idleOK I I' calls
+    else drainOK pods none now I I' calls (r == "drained")
+  else r != "error" && drainOK pods (knownDeadline src) now I I' calls (r == "drained")
+
 /-- the property's verdict on one observed step: `s` the state before it (clock, API server content, queue
     items), `I'` the queue items after it, `calls` the removal requests sent during it, `r` its verdict string.
     `strict`: the history contains no enqueueing other than by drain passes. -/
 def stepOK (strict : Bool) (s : State) (st : Step) (I' : Items) (calls : List Call) (r : String) : Bool :=
   match st with
   | .drain D => r != "error" && drainOK (livePods s) D s.now s.q I' calls (r == "drained")
+  | .node src => nodePassOK (livePods s) src s.now s.q I' calls r
   | .recon i _ _ =>
     match s.pods[i]? with
     | none => idleOK s.q I' calls
